@@ -47,7 +47,7 @@ static void run_cmd(const sim::Cmd &c, sim::Out &out)
   RunParams rp;
   std::vector<Op> ops;
   if (c.verb == "run" || c.verb == "gen")
-    ops = generate(seed, genprop == "C18" ? std::string("C08") : genprop, rp);
+    ops = generate(seed, genprop == "C18" ? std::string("C08") : genprop, rp, c.str("world", ""));
   else
   {
     rp.dl_size = c.num("dl_size", 16);
